@@ -222,3 +222,15 @@ def crash_key(rule_prefix, crash, opname=None, extra=None):
         parts.append(extra)
     parts.append("at=" + crash.get("site", "?"))
     return " ".join(parts)
+
+
+# Names for library directories: the characters that are ordinary in file names but special to URIs, SQL, shells or
+# path handling.  Libraries live wherever the user keeps music ("hits #1", "what now?", "100%41 percent").
+DIR_NAME_POOL = ["{}", "{} #1", "what now? {}", "100%41 {}", "{} with space", "{}.d", "\u00e9{}\u00fc", "{}'s", "{}&x=y", "{};1",
+                 "nested/in/{}", "{}" + "x" * 120, "{}%", "{}%zz", "file:{}", "-{}", "{}\\back", "{}*", "[{}]", "~{}", "{}\ttab",
+                 "{}\"quoted\"", "{}:memory:", "{}?mode=ro", "{}#", "$HOME {}", "{}  "]
+
+
+def dir_name(cid, k):
+    """k-th decoration of the directory name for case `cid` (k = 0: plain)."""
+    return DIR_NAME_POOL[k % len(DIR_NAME_POOL)].format(cid)
